@@ -2,6 +2,7 @@ package variants
 
 import (
 	"math"
+	"strconv"
 	"time"
 
 	cconv "github.com/pip-services3-gox/pip-services3-commons-gox/convert"
@@ -227,9 +228,19 @@ func (c *TypeUnsafeVariantOperations) convertFromString(
 	result := EmptyVariant()
 	switch newType {
 	case Integer:
+		// Whole decimal numbers are read exactly; the generic converter goes through
+		// a float64 and loses the low digits of values beyond 2^53.
+		if whole, err := strconv.ParseInt(value.AsString(), 10, 64); err == nil {
+			result.SetAsInteger(int(whole))
+			return result, nil
+		}
 		result.SetAsInteger(cconv.IntegerConverter.ToInteger(value.AsString()))
 		return result, nil
 	case Long:
+		if whole, err := strconv.ParseInt(value.AsString(), 10, 64); err == nil {
+			result.SetAsLong(whole)
+			return result, nil
+		}
 		result.SetAsLong(int64(cconv.LongConverter.ToLong(value.AsString())))
 		return result, nil
 	case Float:
